@@ -428,6 +428,13 @@ impl HttpServer {
                     continue;
                 }
 
+                // A closed connection is only kept until the responses it is still owed
+                // have been absorbed. There is nothing left to read or write on it, and
+                // trying to would fail `requests` with `InvalidWrite` on every call.
+                if client_connection.state == ClientConnectionState::Closed {
+                    continue;
+                }
+
                 if e.event_set().contains(epoll::EventSet::IN) {
                     // We have bytes to read from this connection.
                     // If our `read` yields `Request` objects, we wrap them with an ID before
